@@ -179,15 +179,6 @@ impl Issuer {
       Self::Obj(obj) => obj.id_ref(),
     }
   }
-  pub fn url__canary(&self) -> (r: &Url)
-
-    ensures false,
-  {
-    match self {
-      Self::Url(url) => url,
-      Self::Obj(obj) => obj.id_ref(),
-    }
-  }
 }
 /// `Issuer == Issuer` (derived PartialEq): ASSUMED structural
 impl vstd::std_specs::cmp::PartialEqSpecImpl for Issuer {
@@ -224,41 +215,12 @@ impl IssuanceDateClaims {
       nbf: Some(issuance_date.to_unix()),
     }
   }
-  pub(crate) fn new__canary(issuance_date: Timestamp) -> (r: Self)
-    ensures r.iat is None, r.nbf == Some(ts_unix(issuance_date) as i64),
-      false,
-  {
-    Self {
-      iat: None,
-      nbf: Some(issuance_date.to_unix()),
-    }
-  }
   pub(crate) fn to_issuance_date(self) -> (r: Result<Timestamp>)
     ensures
       // nbf wins over iat; a date outside years 0000-9999 is rejected, never silently replaced
       self.nbf is Some ==> (r is Ok <==> in_window(self.nbf->Some_0 as int)) && (r is Ok ==> ts_unix(r->Ok_0) == self.nbf->Some_0),
       self.nbf is None && self.iat is Some ==> (r is Ok <==> in_window(self.iat->Some_0 as int)) && (r is Ok ==> ts_unix(r->Ok_0) == self.iat->Some_0),
       self.nbf is None && self.iat is None ==> r is Err,
-  {
-    if let Some(timestamp) = self
-      .nbf
-      .map(|x_eta| -> (r_eta: _) requires call_requires(Timestamp::from_unix, (x_eta,)) ensures call_ensures(Timestamp::from_unix, (x_eta,), r_eta) { Timestamp::from_unix(x_eta) })
-      .transpose()
-      .map_err(|_unused| Error::TimestampConversionError)?
-    {
-      Ok(timestamp)
-    } else {
-      Timestamp::from_unix(self.iat.ok_or(Error::TimestampConversionError)?)
-        .map_err(|_unused| Error::TimestampConversionError)
-    }
-  }
-  pub(crate) fn to_issuance_date__canary(self) -> (r: Result<Timestamp>)
-    ensures
-      // nbf wins over iat; a date outside years 0000-9999 is rejected, never silently replaced
-      self.nbf is Some ==> (r is Ok <==> in_window(self.nbf->Some_0 as int)) && (r is Ok ==> ts_unix(r->Ok_0) == self.nbf->Some_0),
-      self.nbf is None && self.iat is Some ==> (r is Ok <==> in_window(self.iat->Some_0 as int)) && (r is Ok ==> ts_unix(r->Ok_0) == self.iat->Some_0),
-      self.nbf is None && self.iat is None ==> r is Err,
-      false,
   {
     if let Some(timestamp) = self
       .nbf
@@ -402,70 +364,6 @@ impl<'credential> CredentialJwtClaims<'credential> {
 
     Ok(())
   }
-  pub fn check_consistency__canary(&self) -> (r: Result<()>)
-    ensures r is Ok <==> (issuance_unix(self.issuance_date) is Some && cred_claims_consistent(self)),
-      false,
-  {
-    // Check consistency of issuer.
-    let issuer_from_claims: &Issuer = self.iss.as_ref();
-    if !self
-      .vc
-      .issuer
-      .as_ref()
-      .map(|value: &Issuer| -> (b: bool) ensures b == (*value == *issuer_from_claims) { value == issuer_from_claims })
-      .unwrap_or(true)
-    {
-      return Err(Error::InconsistentCredentialJwtClaims("inconsistent issuer"));
-    };
-
-    // Check consistency of issuanceDate
-    let issuance_date_from_claims = self.issuance_date.to_issuance_date()?;
-    if !self
-      .vc
-      .issuance_date
-      .map(|value: Timestamp| -> (b: bool) ensures b == (value == issuance_date_from_claims) { value == issuance_date_from_claims })
-      .unwrap_or(true)
-    {
-      return Err(Error::InconsistentCredentialJwtClaims("inconsistent issuanceDate"));
-    };
-
-    // Check consistency of expirationDate
-    if !self
-      .vc
-      .expiration_date
-      .map(|value: Timestamp| -> (b: bool) ensures b == (self.exp is Some && self.exp->Some_0 == ts_unix(value)) { self.exp.filter(|exp: &i64| -> (b: bool) ensures b == (*exp == ts_unix(value)) { *exp == value.to_unix() }).is_some() })
-      .unwrap_or(true)
-    {
-      return Err(Error::InconsistentCredentialJwtClaims(
-        "inconsistent credential expirationDate",
-      ));
-    };
-
-    // Check consistency of id
-    if !self
-      .vc
-      .id
-      .as_ref()
-      .map(|value: &Url| -> (b: bool) ensures b == (self.jti is Some && cow_url(self.jti->Some_0) == *value) { self.jti.as_ref().filter(|jti: &&Cow<'_, Url>| -> (b: bool) ensures b == (cow_url(**jti) == *value) { jti.as_ref() == value }).is_some() })
-      .unwrap_or(true)
-    {
-      return Err(Error::InconsistentCredentialJwtClaims("inconsistent credential id"));
-    };
-
-    // Check consistency of credentialSubject
-    if let Some(ref inner_credential_subject_id) = self.vc.credential_subject.id {
-      let subject_claim = self.sub.as_ref().ok_or(Error::InconsistentCredentialJwtClaims(
-        "inconsistent credentialSubject: expected identifier in sub",
-      ))?;
-      if subject_claim.as_ref() != inner_credential_subject_id {
-        return Err(Error::InconsistentCredentialJwtClaims(
-          "inconsistent credentialSubject: identifiers do not match",
-        ));
-      }
-    };
-
-    Ok(())
-  }
 }
 } // mod fns2
 
@@ -525,7 +423,8 @@ impl<'presentation> PresentationJwtClaims<'presentation> {
       .vp
       .id
       .as_ref()
-      .map(|value: &Url| -> (b: bool) ensures b == (self.jti is Some && cow_url(self.jti->Some_0) == *value) { self.jti.as_ref().filter(|jti: &&Cow<'_, Url>| -> (b: bool) ensures b == (cow_url(**jti) == *value) { jti.as_ref() == value }).is_some() })
+      .zip(self.jti.as_ref())
+      .map(|(value, jti)| jti.as_ref() == value)
       .unwrap_or(true)
     {
       return Err(Error::InconsistentPresentationJwtClaims("inconsistent presentation id"));
@@ -535,35 +434,7 @@ impl<'presentation> PresentationJwtClaims<'presentation> {
       .vp
       .holder
       .as_ref()
-      .map(|value: &Url| -> (b: bool) ensures b == (cow_url(self.iss) == *value) { self.iss.as_ref() == value })
-      .unwrap_or(true)
-    {
-      return Err(Error::InconsistentPresentationJwtClaims(
-        "inconsistent presentation holder",
-      ));
-    };
-
-    Ok(())
-  }
-  pub fn check_consistency__canary(&self) -> (r: Result<()>)
-    ensures r is Ok <==> pres_claims_consistent(self),
-      false,
-  {
-    if !self
-      .vp
-      .id
-      .as_ref()
-      .map(|value: &Url| -> (b: bool) ensures b == (self.jti is Some && cow_url(self.jti->Some_0) == *value) { self.jti.as_ref().filter(|jti: &&Cow<'_, Url>| -> (b: bool) ensures b == (cow_url(**jti) == *value) { jti.as_ref() == value }).is_some() })
-      .unwrap_or(true)
-    {
-      return Err(Error::InconsistentPresentationJwtClaims("inconsistent presentation id"));
-    };
-
-    if !self
-      .vp
-      .holder
-      .as_ref()
-      .map(|value: &Url| -> (b: bool) ensures b == (cow_url(self.iss) == *value) { self.iss.as_ref() == value })
+      .map(|value| self.iss.as_ref() == value)
       .unwrap_or(true)
     {
       return Err(Error::InconsistentPresentationJwtClaims(
@@ -581,16 +452,6 @@ broadcast use {ctypes::axiom_ts_window, ctypes::axiom_ts_ext, axiom_cow_ref_issu
 impl<'credential> InnerCredentialSubject<'credential> {
   fn new(subject: &'credential Subject) -> (r: Self)
     ensures r.id is None,
-  {
-    Self {
-      
-      id: None,
-      properties: Cow::Borrowed(&subject.properties),
-    }
-  }
-  fn new__canary(subject: &'credential Subject) -> (r: Self)
-    ensures r.id is None,
-      false,
   {
     Self {
       
@@ -667,74 +528,6 @@ impl<'credential> CredentialJwtClaims<'credential> {
       custom,
     })
   }
-  pub(crate) fn new__canary(credential: &'credential Credential, custom: Option<Object>) -> (r: Result<Self>)
-    ensures
-      // more than one subject cannot be expressed in a JWT
-      r is Ok <==> credential.credential_subject is One,
-      r is Ok ==> {
-        let k = r->Ok_0;
-        let subject = credential.credential_subject->One_0;
-        // issuer, subject id, credential id, issuance and expiration are carried ONCE, in iss/sub/jti/nbf/exp
-        &&& cow_issuer(k.iss) == credential.issuer
-        &&& (k.sub is Some <==> subject.id is Some) && (k.sub is Some ==> cow_url(k.sub->Some_0) == subject.id->Some_0)
-        &&& (k.jti is Some <==> credential.id is Some) && (k.jti is Some ==> cow_url(k.jti->Some_0) == credential.id->Some_0)
-        &&& k.issuance_date.nbf == Some(ts_unix(credential.issuance_date) as i64) && k.issuance_date.iat is None
-        &&& (k.exp is Some <==> credential.expiration_date is Some) && (k.exp is Some ==> k.exp->Some_0 == ts_unix(credential.expiration_date->Some_0))
-        &&& k.vc.id is None && k.vc.issuer is None && k.vc.issuance_date is None && k.vc.expiration_date is None && k.vc.credential_subject.id is None
-        &&& k.vc.non_transferable == credential.non_transferable
-        &&& k.custom == custom
-        // hence the claims set produced is self-consistent
-        &&& cred_claims_consistent(&k)
-      },
-      false,
-  {
-    let Credential {
-      context,
-      id,
-      types,
-      credential_subject: OneOrMany::One(subject),
-      issuer,
-      issuance_date,
-      expiration_date,
-      credential_status,
-      credential_schema,
-      refresh_service,
-      terms_of_use,
-      evidence,
-      non_transferable,
-      properties,
-      proof,
-    } = credential
-    else {
-      return Err(Error::MoreThanOneSubjectInJwt);
-    };
-
-    Ok(Self {
-      exp: expiration_date.map(|value: Timestamp| -> (x: i64) ensures x == ts_unix(value) { Timestamp::to_unix(&value) }),
-      iss: Cow::Borrowed(issuer),
-      issuance_date: IssuanceDateClaims::new(*issuance_date),
-      jti: id.as_ref().map(|x_eta| -> (r_eta: Cow<'_, _>) ensures r_eta == Cow::Borrowed(x_eta) { Cow::Borrowed(x_eta) }),
-      sub: subject.id.as_ref().map(|x_eta| -> (r_eta: Cow<'_, _>) ensures r_eta == Cow::Borrowed(x_eta) { Cow::Borrowed(x_eta) }),
-      vc: InnerCredential {
-        context: Cow::Borrowed(context),
-        id: None,
-        types: Cow::Borrowed(types),
-        credential_subject: InnerCredentialSubject::new(subject),
-        issuance_date: None,
-        expiration_date: None,
-        issuer: None,
-        credential_schema: Cow::Borrowed(credential_schema),
-        credential_status: credential_status.as_ref().map(|x_eta| -> (r_eta: Cow<'_, _>) ensures r_eta == Cow::Borrowed(x_eta) { Cow::Borrowed(x_eta) }),
-        refresh_service: Cow::Borrowed(refresh_service),
-        terms_of_use: Cow::Borrowed(terms_of_use),
-        evidence: Cow::Borrowed(evidence),
-        non_transferable: *non_transferable,
-        properties: Cow::Borrowed(properties),
-        proof: proof.as_ref().map(|x_eta| -> (r_eta: Cow<'_, _>) ensures r_eta == Cow::Borrowed(x_eta) { Cow::Borrowed(x_eta) }),
-      },
-      custom,
-    })
-  }
 }
 } // mod fns4
 
@@ -755,78 +548,6 @@ impl<'credential> CredentialJwtClaims<'credential> {
         &&& (c.expiration_date is Some <==> self.exp is Some) && (self.exp is Some ==> ts_unix(c.expiration_date->Some_0) == self.exp->Some_0)
         &&& c.non_transferable == self.vc.non_transferable
       },
-  {
-    self.check_consistency()?;
-
-    let Self {
-      exp,
-      iss,
-      issuance_date,
-      jti,
-      sub,
-      vc,
-      custom: _,
-    } = self;
-
-    let InnerCredential {
-      context,
-      id: _,
-      types,
-      credential_subject,
-      credential_status,
-      credential_schema,
-      refresh_service,
-      terms_of_use,
-      evidence,
-      non_transferable,
-      properties,
-      proof,
-      issuance_date: _,
-      issuer: _,
-      expiration_date: _,
-    } = vc;
-
-    Ok(Credential {
-      context: context.into_owned(),
-      id: jti.map(|x_eta| -> (r_eta: _) requires call_requires(Cow::into_owned, (x_eta,)) ensures call_ensures(Cow::into_owned, (x_eta,), r_eta) { Cow::into_owned(x_eta) }),
-      types: types.into_owned(),
-      credential_subject: {
-        OneOrMany::One(Subject {
-          id: sub.map(|x_eta| -> (r_eta: _) requires call_requires(Cow::into_owned, (x_eta,)) ensures call_ensures(Cow::into_owned, (x_eta,), r_eta) { Cow::into_owned(x_eta) }),
-          properties: credential_subject.properties.into_owned(),
-        })
-      },
-      issuer: iss.into_owned(),
-      issuance_date: issuance_date.to_issuance_date()?,
-      expiration_date: exp
-        .map(|x_eta| -> (r_eta: _) requires call_requires(Timestamp::from_unix, (x_eta,)) ensures call_ensures(Timestamp::from_unix, (x_eta,), r_eta) { Timestamp::from_unix(x_eta) })
-        .transpose()
-        .map_err(|_unused| Error::TimestampConversionError)?,
-      credential_status: credential_status.map(|x_eta| -> (r_eta: _) requires call_requires(Cow::into_owned, (x_eta,)) ensures call_ensures(Cow::into_owned, (x_eta,), r_eta) { Cow::into_owned(x_eta) }),
-      credential_schema: credential_schema.into_owned(),
-      refresh_service: refresh_service.into_owned(),
-      terms_of_use: terms_of_use.into_owned(),
-      evidence: evidence.into_owned(),
-      non_transferable,
-      properties: properties.into_owned(),
-      proof: proof.map(|x_eta| -> (r_eta: _) requires call_requires(Cow::into_owned, (x_eta,)) ensures call_ensures(Cow::into_owned, (x_eta,), r_eta) { Cow::into_owned(x_eta) }),
-    })
-  }
-  pub(crate) fn try_into_credential__canary(self) -> (r: Result<Credential>)
-    ensures
-      // rejected rather than silently resolved: inconsistent duplicates, dates outside years 0000-9999
-      r is Ok <==> (cred_claims_consistent(&self) && issuance_unix(self.issuance_date) is Some && (self.exp is Some ==> in_window(self.exp->Some_0 as int))),
-      r is Ok ==> {
-        let c = r->Ok_0;
-        &&& c.issuer == cow_issuer(self.iss)
-        &&& c.credential_subject is One
-        &&& (c.credential_subject->One_0.id is Some <==> self.sub is Some) && (self.sub is Some ==> c.credential_subject->One_0.id->Some_0 == cow_url(self.sub->Some_0))
-        &&& (c.id is Some <==> self.jti is Some) && (self.jti is Some ==> c.id->Some_0 == cow_url(self.jti->Some_0))
-        &&& ts_unix(c.issuance_date) == issuance_unix(self.issuance_date)->Some_0
-        &&& (c.expiration_date is Some <==> self.exp is Some) && (self.exp is Some ==> ts_unix(c.expiration_date->Some_0) == self.exp->Some_0)
-        &&& c.non_transferable == self.vc.non_transferable
-      },
-      false,
   {
     self.check_consistency()?;
 
@@ -967,106 +688,11 @@ impl<'presentation> PresentationJwtClaims<'presentation> {
       custom: options.custom_claims.clone(),
     })
   }
-  pub fn new__canary(
-  presentation: &'presentation Presentation,
-  options: &JwtPresentationOptions,
-  ) -> (r: Result<Self>)
-    ensures
-      r is Ok,
-      ({
-        let k = r->Ok_0;
-        // holder, id, expiry, issuance and audience are carried once, in iss/jti/exp/nbf/aud
-        &&& cow_url(k.iss) == presentation.holder
-        &&& (k.jti is Some <==> presentation.id is Some) && (k.jti is Some ==> cow_url(k.jti->Some_0) == presentation.id->Some_0)
-        &&& (k.exp is Some <==> options.expiration_date is Some) && (k.exp is Some ==> k.exp->Some_0 == ts_unix(options.expiration_date->Some_0))
-        &&& (k.issuance_date is Some <==> options.issuance_date is Some)
-        &&& (k.issuance_date is Some ==> k.issuance_date->Some_0.nbf == Some(ts_unix(options.issuance_date->Some_0) as i64) && k.issuance_date->Some_0.iat is None)
-        &&& k.aud == options.audience
-        &&& k.vp.id is None && k.vp.holder is None
-        &&& pres_claims_consistent(&k)
-      }),
-      false,
-  {
-    let Presentation {
-      context,
-      id,
-      types,
-      verifiable_credential,
-      holder,
-      refresh_service,
-      terms_of_use,
-      properties,
-      proof,
-    } = presentation;
-
-    Ok(Self {
-      iss: Cow::Borrowed(holder),
-      jti: id.as_ref().map(|x_eta| -> (r_eta: Cow<'_, _>) ensures r_eta == Cow::Borrowed(x_eta) { Cow::Borrowed(x_eta) }),
-      vp: InnerPresentation {
-        context: Cow::Borrowed(context),
-        id: None,
-        types: Cow::Borrowed(types),
-        verifiable_credential: Cow::Borrowed(verifiable_credential),
-        refresh_service: Cow::Borrowed(refresh_service),
-        terms_of_use: Cow::Borrowed(terms_of_use),
-        properties: Cow::Borrowed(properties),
-        proof: proof.as_ref().map(|x_eta| -> (r_eta: Cow<'_, _>) ensures r_eta == Cow::Borrowed(x_eta) { Cow::Borrowed(x_eta) }),
-        holder: None,
-      },
-      exp: options.expiration_date.map(|expiration_date: Timestamp| -> (x: i64) ensures x == ts_unix(expiration_date) { expiration_date.to_unix() }),
-      issuance_date: options.issuance_date.map(|x_eta| -> (r_eta: _) requires call_requires(IssuanceDateClaims::new, (x_eta,)) ensures call_ensures(IssuanceDateClaims::new, (x_eta,), r_eta) { IssuanceDateClaims::new(x_eta) }),
-      aud: options.audience.clone(),
-      custom: options.custom_claims.clone(),
-    })
-  }
   pub(crate) fn try_into_presentation(self) -> (r: Result<Presentation>)
     ensures
       r is Ok <==> pres_claims_consistent(&self),
       r is Ok ==> r->Ok_0.holder == cow_url(self.iss)
         && (r->Ok_0.id is Some <==> self.jti is Some) && (self.jti is Some ==> r->Ok_0.id->Some_0 == cow_url(self.jti->Some_0)),
-  {
-    self.check_consistency()?;
-    let Self {
-      exp: _,
-      iss,
-      issuance_date: _,
-      jti,
-      aud: _,
-      vp,
-      custom: _,
-    } = self;
-    let InnerPresentation {
-      context,
-      id: _,
-      types,
-      verifiable_credential,
-      refresh_service,
-      terms_of_use,
-      properties,
-      proof,
-      holder: _,
-    } = vp;
-
-    let presentation = Presentation {
-      context: context.into_owned(),
-      id: jti.map(|x_eta| -> (r_eta: _) requires call_requires(Cow::into_owned, (x_eta,)) ensures call_ensures(Cow::into_owned, (x_eta,), r_eta) { Cow::into_owned(x_eta) }),
-      types: types.into_owned(),
-      verifiable_credential: verifiable_credential.into_owned(),
-      holder: iss.into_owned(),
-      refresh_service: refresh_service.into_owned(),
-      terms_of_use: terms_of_use.into_owned(),
-      properties: properties.into_owned(),
-      proof: proof.map(|x_eta| -> (r_eta: _) requires call_requires(Cow::into_owned, (x_eta,)) ensures call_ensures(Cow::into_owned, (x_eta,), r_eta) { Cow::into_owned(x_eta) }),
-    };
-
-    Ok(presentation)
-  }
-  pub(crate) fn try_into_presentation__canary(self) -> (r: Result<Presentation>)
-    ensures
-      r is Ok <==> pres_claims_consistent(&self),
-      r is Ok ==> r->Ok_0.holder == cow_url(self.iss)
-        && (r->Ok_0.id is Some <==> self.jti is Some) && (self.jti is Some ==> r->Ok_0.id->Some_0 == cow_url(self.jti->Some_0)),
-      false,
   {
     self.check_consistency()?;
     let Self {
@@ -1222,14 +848,6 @@ impl CompoundJwtPresentationValidationError {
       presentation_validation_errors: vec![error],
     }
   }
-  pub fn one_presentation_error__canary(error: JwtValidationError) -> (r: Self)
-
-    ensures false,
-  {
-    Self {
-      presentation_validation_errors: vec![error],
-    }
-  }
 }
 /// conversions into the boxed error payloads (`err.into()`): opaque
 impl From<CoreError> for BoxedError { #[verifier::external_body] fn from(e: CoreError) -> Self { unimplemented!() } }
@@ -1284,131 +902,6 @@ impl<V> JwtPresentationValidator<V> where V: JwsVerifier {
           &&& (d.presentation.id is Some <==> c.jti is Some) && (c.jti is Some ==> d.presentation.id->Some_0 == cow_url(c.jti->Some_0))
         })
       },
-  {
-    // Verify JWS.
-    let decoded_jws: DecodedJws<'_> = holder
-      .as_ref()
-      .verify_jws(
-        presentation.as_str(),
-        None,
-        &self.0,
-        &options.presentation_verifier_options,
-      )
-      .map_err(|err| {
-        CompoundJwtPresentationValidationError::one_presentation_error(JwtValidationError::PresentationJwsError(err))
-      })?;
-
-    let claims: PresentationJwtClaims<'_> = PresentationJwtClaims::from_json_slice(&decoded_jws.claims)
-      .map_err(|err| {
-        CompoundJwtPresentationValidationError::one_presentation_error(JwtValidationError::PresentationStructure(
-          Error::JwtClaimsSetDeserializationError(err.into()),
-        ))
-      })?;
-
-    // Verify that holder document matches holder in presentation.
-    let holder_did: CoreDID = CoreDID::from_str(claims.iss.as_str()).map_err(|err| {
-      CompoundJwtPresentationValidationError::one_presentation_error(JwtValidationError::SignerUrl {
-        signer_ctx: SignerContext::Holder,
-        source: err.into(),
-      })
-    })?;
-
-    if &holder_did != <CoreDocument>::id(holder.as_ref()) {
-      return Err(CompoundJwtPresentationValidationError::one_presentation_error(
-        JwtValidationError::DocumentMismatch(SignerContext::Holder),
-      ));
-    }
-
-    // Check the expiration date.
-    let expiration_date: Option<Timestamp> = claims
-      .exp
-      .map(|exp: i64| -> (o: Result<Timestamp, CompoundJwtPresentationValidationError>) ensures o is Ok <==> in_window(exp as int), o is Ok ==> ts_unix(o->Ok_0) == exp {
-        Timestamp::from_unix(exp).map_err(|err| {
-          CompoundJwtPresentationValidationError::one_presentation_error(JwtValidationError::PresentationStructure(
-            Error::JwtClaimsSetDeserializationError(err.into()),
-          ))
-        })
-      })
-      .transpose()?;
-
-    (expiration_date.is_none() || expiration_date >= Some(options.earliest_expiry_date.unwrap_or_default()))
-      .then_some(())
-      .ok_or(CompoundJwtPresentationValidationError::one_presentation_error(
-        JwtValidationError::ExpirationDate,
-      ))?;
-
-    // Check issuance date.
-    let issuance_date: Option<Timestamp> = match claims.issuance_date {
-      Some(iss) => {
-        if iss.iat.is_some() || iss.nbf.is_some() {
-          Some(iss.to_issuance_date().map_err(|err| {
-            CompoundJwtPresentationValidationError::one_presentation_error(JwtValidationError::PresentationStructure(
-              Error::JwtClaimsSetDeserializationError(err.into()),
-            ))
-          })?)
-        } else {
-          None
-        }
-      }
-      None => None,
-    };
-
-    (issuance_date.is_none() || issuance_date <= Some(options.latest_issuance_date.unwrap_or_default()))
-      .then_some(())
-      .ok_or(CompoundJwtPresentationValidationError::one_presentation_error(
-        JwtValidationError::IssuanceDate,
-      ))?;
-
-    let aud: Option<Url> = claims.aud.clone();
-    let custom_claims: Option<Object> = claims.custom.clone();
-
-    let presentation: Presentation = claims.try_into_presentation().map_err(|err| {
-      CompoundJwtPresentationValidationError::one_presentation_error(JwtValidationError::PresentationStructure(err))
-    })?;
-
-    let decoded_jwt_presentation: DecodedJwtPresentation = DecodedJwtPresentation {
-      presentation,
-      header: Box::new(decoded_jws.protected),
-      expiration_date,
-      issuance_date,
-      aud,
-      custom_claims,
-    };
-
-    Ok(decoded_jwt_presentation)
-  }
-  pub fn validate__canary(
-  &self,
-  presentation: &Jwt,
-  holder: &CoreDocument,
-  options: &JwtPresentationValidationOptions,
-  ) -> (r: Result<DecodedJwtPresentation, CompoundJwtPresentationValidationError>)
-    ensures
-      r is Ok ==> {
-        let d = r->Ok_0;
-        let claim_bytes = vj_claims(holder, jwt_text(presentation), &self.0, &options.presentation_verifier_options);
-        // the JWS verified under a key of the supplied holder document (scope / kid / nonce rules: contract of verify_jws)
-        &&& verified_by_doc(holder, jwt_text(presentation), &self.0, &options.presentation_verifier_options)
-        &&& json_claims(claim_bytes) is Some
-        &&& ({
-          let c = json_claims(claim_bytes)->Some_0;
-          // the issuer claim is a DID equal to that document's id
-          &&& did_of_text(url_text(&cow_url(c.iss))) == Some(*doc_id(holder))
-          // expiry not before the earliest-expiry bound (now, if none is configured); issuance not after the latest-issuance bound
-          &&& (c.exp is Some ==> in_window(c.exp->Some_0 as int) && c.exp->Some_0 >= bound_or_now(options.earliest_expiry_date))
-          &&& (c.issuance_date is Some && (c.issuance_date->Some_0.iat is Some || c.issuance_date->Some_0.nbf is Some)
-                 ==> pres_issuance_unix(&c) is Some && pres_issuance_unix(&c)->Some_0 <= bound_or_now(options.latest_issuance_date))
-          // holder / id duplicated inside vp agree with the registered claims
-          &&& pres_claims_consistent(&c)
-          // what is returned is what was signed
-          &&& d.aud == c.aud && d.custom_claims == c.custom
-          &&& (d.expiration_date is Some <==> c.exp is Some) && (c.exp is Some ==> ts_unix(d.expiration_date->Some_0) == c.exp->Some_0)
-          &&& (d.issuance_date is Some <==> pres_issuance_unix(&c) is Some) && (d.issuance_date is Some ==> ts_unix(d.issuance_date->Some_0) == pres_issuance_unix(&c)->Some_0)
-          &&& d.presentation.holder == cow_url(c.iss)
-          &&& (d.presentation.id is Some <==> c.jti is Some) && (c.jti is Some ==> d.presentation.id->Some_0 == cow_url(c.jti->Some_0))
-        })
-      },
-      false,
   {
     // Verify JWS.
     let decoded_jws: DecodedJws<'_> = holder
